@@ -43,7 +43,7 @@ pub enum PasetoError {
   #[error("An unspecified ECSDA error occurred")]
   ECSDAError {
     ///An ECSDA cipher error
-    #[from]
+    #[cfg_attr(not(feature = "ed25519-dalek"), from)]
     source: p384::ecdsa::Error,
   },
   #[cfg(feature = "blake2")]
